@@ -101,3 +101,74 @@ pub(crate) fn write_response_model<V: ext::BytesVec>(vars: protocol::ProtocolVar
     out.extend_from_slice(&[0xFA, vars.bits(), config.max_conns.get() as u8, 0xFB]);
     WR_MODEL_LEN
 }
+
+// ---------------------------------------------------------------- reference name-value decoding (used by C16, C01, C02, C04)
+/// Reference varint decoder at offset `o`: (value, consumed) or None on truncation.
+pub(crate) fn ref_varint(b: &[u8], o: usize) -> Option<(usize, usize)> {
+    if o >= b.len() { return None; }
+    if b[o] & 0x80 == 0 { return Some((b[o] as usize, 1)); }
+    if o + 4 > b.len() { return None; }
+    let v = (((b[o] & 0x7f) as usize) << 24) | ((b[o + 1] as usize) << 16) | ((b[o + 2] as usize) << 8) | b[o + 3] as usize;
+    Some((v, 4))
+}
+
+/// Reference (non-iterator) decoder of the pair starting at offset `o`: (head_len, name_len, val_len).
+pub(crate) fn ref_next(b: &[u8], o: usize) -> Option<(usize, usize, usize)> {
+    let (nl, c1) = ref_varint(b, o)?;
+    let (vl, c2) = ref_varint(b, o + c1)?;
+    let h = c1 + c2;
+    // nl, vl < 2^31: no overflow on a 64-bit usize
+    if o + h + nl + vl <= b.len() { Some((h, nl, vl)) } else { None }
+}
+
+
+// ---------------------------------------------------------------- E5b: model of compact_str's integer formatting
+// `NonZeroUsize::to_compact_string()` (third-party compact_str + castaway type dispatch) is not tractable under
+// CBMC (all 30 specialisation arms incl. ryu float formatting are explored: 3.2 M symex steps per call), and
+// 64-bit division by 10 stalls the SAT back end.  It is replaced by this model: the harness chooses the DECIMAL
+// DIGITS symbolically, computes max_conns from them (multiplication by constants only) and publishes them in
+// ghost state; the model checks it is asked for exactly that number and returns the digit string.
+// compact_str's own conversion is third-party code and outside the claim.
+pub(crate) static mut G_DIGITS: [u8; 20] = [0; 20];   // most significant first
+pub(crate) static mut G_NDIG: usize = 0;
+pub(crate) static mut G_VALUE: usize = 0;
+pub(crate) trait AsUsize { fn as_usize(&self) -> usize; }
+impl AsUsize for std::num::NonZeroUsize { fn as_usize(&self) -> usize { self.get() } }
+pub(crate) trait TcsModel: AsUsize {
+    fn tcs_model(&self) -> compact_str::CompactString {
+        unsafe {
+            assert!(self.as_usize() == G_VALUE, "to_compact_string called on a number other than max_conns");
+            compact_str::CompactString::new(std::str::from_utf8_unchecked(&G_DIGITS[..G_NDIG]))
+        }
+    }
+}
+impl TcsModel for std::num::NonZeroUsize {}
+
+/// Chooses a symbolic number with exactly `nd` decimal digits (1..=20, value <= usize::MAX), publishes its digits.
+pub(crate) fn any_decimal(nd: usize) -> usize {
+    let mut v: usize = 0;
+    let mut i = 0;
+    while i < nd {
+        let d: u8 = kani::any();
+        kani::assume(d <= 9);
+        if i == 0 { kani::assume(d >= 1); }
+        if nd == 20 && i == 0 { kani::assume(d == 1); }
+        unsafe { G_DIGITS[i] = b'0' + d; }
+        if nd == 20 && i > 0 {
+            // 1xxxxxxxxxxxxxxxxxxx <= 18446744073709551615: accumulate the 19 low digits, bound checked below
+        }
+        v = v.wrapping_mul(10).wrapping_add(d as usize);
+        i += 1;
+    }
+    if nd == 20 {
+        // v wrapped iff the true value exceeds usize::MAX; true value = 10^19 + low where low < 10^19.
+        // no wrap  <=>  low <= usize::MAX - 10^19  <=>  v >= 10^19 (as a wrapped sum it would be < 10^19 - ... )
+        kani::assume(v >= 10_000_000_000_000_000_000usize);
+    }
+    unsafe { G_NDIG = nd; G_VALUE = v; }
+    v
+}
+
+/// `SmallVec::with_capacity(n)` is only a capacity hint; with a symbolic `n` it becomes a symbolic-size heap
+/// allocation (CBMC array theory blows up).  Semantics-preserving replacement: start empty, grow on demand.
+pub(crate) fn smallvec_with_capacity_model<A: smallvec::Array>(_n: usize) -> smallvec::SmallVec<A> { smallvec::SmallVec::new() }
